@@ -44,6 +44,7 @@ type Enum struct {
 }
 
 type StoreState struct {
+	empty bool // nothing but what this path wrote (a freshly initialised store)
 	name  string
 	log   []LogEntry
 	init  []*InitEntry
@@ -135,6 +136,9 @@ func (m *Machine) storeGetAt(store string, key *BytesVal, upto int) *BytesVal {
 			}
 			return m.entryValue(e)
 		}
+	}
+	if st.empty {
+		return nil
 	}
 	// closed-world prefixes
 	for _, en := range st.enums {
@@ -258,14 +262,16 @@ func (m *Machine) rawView(e *InitEntry, n int) *BytesVal {
 	}
 	sc := m.w.schemaFor(e.store, e.key)
 	ln := n
-	if sc != nil && sc.rawLen > 0 {
+	if sc != nil && sc.rawLen != 0 {
 		ln = sc.rawLen
 	}
 	if ln == 0 {
 		return nil
 	}
 	if ln < 0 {
-		e.raw = &BytesVal{segs: []Seg{{k: SegUF, t: m.freshStr(fmt.Sprintf("init%d.rawstr", e.id))}}}
+		rs := m.freshStr(fmt.Sprintf("init%d.rawstr", e.id))
+		m.addPC(m.in.Gt(m.in.StrLen(rs), m.in.I64(0))) // stored index values are never empty
+		e.raw = &BytesVal{segs: []Seg{{k: SegUF, t: rs}}}
 		e.rawLen = -1
 		return e.raw
 	}
@@ -333,7 +339,10 @@ func (m *Machine) enumerate(st *StoreState, prefix string) *Enum {
 	if room < 0 {
 		room = 0
 	}
-	n := m.chooseFree(room + 1)
+	n := 0
+	if !st.empty {
+		n = m.chooseFree(room + 1)
+	}
 	for j := 0; j < n; j++ {
 		m.w.nextEnt++
 		e := &InitEntry{id: m.w.nextEnt, store: st.name, present: true, enum: en}
@@ -386,8 +395,9 @@ func (m *Machine) storeIterate(store string, prefix string, reverse bool) *kvIte
 			items = append(items, live{e.key, v})
 		}
 	}
-	// keys written under the prefix that are not initial entries
-	for i := len(st.log) - 1; i >= 0; i-- {
+	// keys written under the prefix that are not initial entries, in the order they were first written
+	// (one representative order; the real order is by key, which is symbolic)
+	for i := 0; i < len(st.log); i++ {
 		le := st.log[i]
 		yes, known := hasLitPrefix(le.key, prefix)
 		if !known {
@@ -406,20 +416,10 @@ func (m *Machine) storeIterate(store string, prefix string, reverse bool) *kvIte
 		if dup {
 			continue
 		}
-		// shadowed by a later log entry (incl. tombstone)?
-		shadow := false
-		for j := len(st.log) - 1; j > i; j-- {
-			if m.branch(m.bytesEq(st.log[j].key, le.key)) {
-				shadow = true
-				break
-			}
-		}
-		if shadow {
-			continue
-		}
-		// equal to an absent/deleted initial entry is fine: it is live now
-		if le.val != nil {
-			items = append(items, live{le.key, le.val})
+		// an initial entry that is absent/deleted now, or a fresh key: its current value decides
+		cur := m.storeGet(store, le.key)
+		if cur != nil {
+			items = append(items, live{le.key, cur})
 		}
 	}
 	for _, x := range items {
